@@ -232,6 +232,9 @@ def check_case(case):
         df = pd.DataFrame(rows)
         if not case["has_depth"]:
             df = df.drop(columns=["depth"])
+        from vk import gen
+
+        df = gen.relabel(df, gen.spec_for(case))
         cna = CopyNumArray(df.copy(), {"sample_id": "s"})
         before = df["log2"].values.copy()
         cna.center_all(estimator=case["estimator"], by_chrom=case["by_chrom"], skip_low=case["skip_low"],
@@ -282,6 +285,9 @@ def check_case(case):
     df = pd.DataFrame(rows)
     if not case["weights"]:
         df = df.drop(columns=["weight"])
+    from vk import gen
+
+    df = gen.relabel(df, gen.spec_for(case))
     cna = CopyNumArray(df.copy(), {"sample_id": "s", "filename": "s.cnr"})
     ctx = (f"sample {'female' if case['female'] else 'male'}, {'male' if case['male_ref'] else 'female'} reference, "
            f"sd {case['sd']}, nx {case['nx']}, ny {case['ny']}, autosomes {len(case['autos'])}x{case['per_auto']}, weights {case['weights']}, "
